@@ -24,7 +24,8 @@ RULE = ("A case is a history: `new kind cap cmp ctor init other` followed by ope
         "extract, size/empty/max_size, relational operators), each from every reachable set. Exhaustive part: from EVERY "
         "reachable set (every subset of the key universe with at most `cap` elements; universe 0..5, constructed "
         "through every constructor) (a) every lookup member x every key x homogeneous/heterogeneous x const/non-const "
-        "overload, size()/empty()/full()/max_size() and the six relational operators against the other live set, "
+        "overload - heterogeneous keys of two kinds: HKey{v}, equivalent to at most one element, and the band key BKey{v} = {v, v+1}, "
+        "equivalent to up to two elements (contains/count/lower_bound/upper_bound/equal_range; find is unspecified there) -, size()/empty()/full()/max_size() and the six relational operators against the other live set, "
         "(b) every single modifier (insert via insert/move/emplace/hint of every key, range insert, erase by "
         "every key / every position / every range, erase_if with six predicates (evens, odds, thirds, all, none), clear, "
         "member and free swap, extract, replace), (c) every sequence of "
